@@ -183,7 +183,7 @@ def run(ctx):
     workers = "4" if quick else "6"
     jobs = {
         "calls": ["-workers", workers],
-        "cycles": ["-workers", workers, "-emit", "-n", "70" if quick else "4000"],
+        "cycles": ["-workers", workers, "-emit", "-n", "70" if quick else "2500"],
         "src": ["-workers", workers],
     }
     results = {}
